@@ -583,3 +583,85 @@ package ast
 //@   ensures monotone: capture_group_number >= old(capture_group_number) [C14]
 //@ func parse_regexp [C14]
 //@   modifies capture_group_number
+
+// ---- lexer: string escapes (C16) ----
+// bufio.Reader is modelled by ghost state (spec/externals.spec): data (the whole input), pos, and
+// lastw, the width of the rune UnreadRune would give back (-1: it would fail).
+//@ pred lexOk(s *Lexer) := s != nil && s.r != nil && s.position != nil && len(s.position.store) >= 1 && 0 <= s.r.pos && s.r.pos <= len(s.r.data) && s.r.lastw <= s.r.pos
+//@ pred escOf(c Int) := c == 'n' ? 10 : (c == 't' ? 9 : (c == 'r' ? 13 : (c == 'a' ? 7 : (c == 'b' ? 8 : (c == 'f' ? 12 : (c == 'v' ? 11 : c))))))
+//@ pred isHexC(c Int) := ('0' <= c && c <= '9') || ('A' <= c && c <= 'F') || ('a' <= c && c <= 'f')
+//@ pred hexVal(c Int) := c <= '9' ? c - '0' : (c <= 'F' ? c - 'A' + 10 : c - 'a' + 10)
+
+//@ func getEscapedRune [C16]
+//@   ensures table: result == escOf(ch)
+//@ func IsHex [C16]
+//@   ensures result == isHexC(ch)
+//@ func HexToAscii [C16 C08]
+//@   requires isHexC(ch1) && isHexC(ch2)
+//@   ensures value: result == 16 * hexVal(ch1) + hexVal(ch2)
+
+//@ func (*Lexer).get_position [C16 C08]
+//@   requires s != nil && s.position != nil
+//@   ensures len(s.position.store) > 0 ==> result == &s.position.store[len(s.position.store) - 1] && result != nil
+//@ func (*Lexer).read [C16 C08]
+//@   requires lexOk(s)
+//@   let p0 := s.r.pos
+//@   let n0 := len(s.position.store)
+//@   let cc0 := s.currentChar
+//@   modifies s.r.pos, s.r.lastw, s.currentChar, s.position.store, elems(s.position.store)
+//@   ensures inv: lexOk(s)
+//@   ensures eof: p0 >= len(s.r.data) ==> result == 0 && s.r.pos == p0 && s.r.lastw == -1 && len(s.position.store) == n0 && s.currentChar == cc0
+//@   ensures ascii: p0 < len(s.r.data) && sat(s.r.data, p0) < 128 ==> result == sat(s.r.data, p0) && s.r.pos == p0 + 1 && s.r.lastw == 1 && len(s.position.store) == n0 + 1 && s.currentChar == result
+//@   ensures wide: p0 < len(s.r.data) && sat(s.r.data, p0) >= 128 ==> result >= 128 && s.r.pos > p0 && s.r.lastw == s.r.pos - p0 && len(s.position.store) == n0 + 1 && s.currentChar == result
+//@ func (*Lexer).unread [C16 C08]
+//@   requires lexOk(s) && amount == 1 && len(s.position.store) >= 2
+//@   let p0 := s.r.pos
+//@   let lw0 := s.r.lastw
+//@   let n0 := len(s.position.store)
+//@   modifies s.r.pos, s.r.lastw, s.currentChar, s.position.store
+//@   ensures inv: lexOk(s)
+//@   ensures back: lw0 >= 0 ==> s.r.pos == p0 - lw0
+//@   ensures stuck: lw0 < 0 ==> s.r.pos == p0
+//@   ensures popped: len(s.position.store) == n0 - 1 && s.r.lastw == -1
+//@   loop 1 invariant lexOk(s) && 0 <= i && i <= 1 && (i == 0 ==> s.r.pos == p0 && s.r.lastw == lw0 && len(s.position.store) == n0)
+//@   loop 1 invariant i == 1 ==> lastPopped != nil && len(s.position.store) == n0 - 1 && s.r.lastw == -1 && s.r.pos == (lw0 >= 0 ? p0 - lw0 : p0)
+//@   loop 1 decreases 1 - i
+//@ func (*Lexer).unread_last [C16 C08]
+//@   requires lexOk(s) && len(s.position.store) >= 2
+//@   let p0 := s.r.pos
+//@   let lw0 := s.r.lastw
+//@   let n0 := len(s.position.store)
+//@   modifies s.r.pos, s.r.lastw, s.currentChar, s.position.store
+//@   ensures inv: lexOk(s)
+//@   ensures back: lw0 >= 0 ==> s.r.pos == p0 - lw0
+//@   ensures stuck: lw0 < 0 ==> s.r.pos == p0
+//@   ensures popped: len(s.position.store) == n0 - 1 && s.r.lastw == -1
+
+// What goes into the token text in the string states: the character itself, the escape table
+// for a backslash pair, the byte 16*h1+h2 for \xh1h2, and a plain x (with nothing consumed after
+// it) when \x is not followed by two hex digits.
+// Totality (C08): no panic for any input (every state the loop can end in has a case in the final
+// switch), both loops terminate, and a token other than EOF consumes input.
+//@ func (*Lexer).getNextToken [C16 C08]
+//@   requires lexOk(s)
+//@   let p0 := s.r.pos
+//@   modifies *
+//@   ensures inv: lexOk(s) && s.r.data == old(s.r.data) && s.r == old(s.r)
+//@   ensures progress: result.1 == nil ==> result.0 != nil && (result.0.TokenType == EOF || s.r.pos > p0) [C08]
+//@   loop 1 invariant lexOk(s) && s.r.data == old(s.r.data) && s.r == old(s.r) && token != nil
+//@   loop 1 invariant SSTART <= current_state && current_state <= SEND && s.r.pos >= p0 && (current_state != SSTART ==> s.r.pos > p0 && len(s.position.store) >= 2) [C08]
+//@   loop 1 decreases len(s.r.data) - s.r.pos [C08]
+//@   loop 2 invariant lexOk(s) && s.r.data == old(s.r.data) && s.r == old(s.r) && token != nil && s.r.pos > p0 && len(s.position.store) >= 2 && current_state == SSTART
+//@   loop 2 invariant curr_ch != 0 ==> s.r.pos <= len(s.r.data) [C08]
+//@   loop 2 decreases len(s.r.data) - s.r.pos + (curr_ch == 0 ? 0 : 1) [C08]
+//@   atcall WriteRune plain: (current_state == SSTRING_DOUBLE || current_state == SSTRING_SINGLE) ==> arg1 == ch [C16]
+//@   atcall WriteRune escape: (current_state == SSTRING_D_ESCAPE || current_state == SSTRING_S_ESCAPE) && !defined(hex) ==> ch != 'x' && arg1 == escOf(ch) [C16]
+//@   atcall WriteRune hex: (current_state == SSTRING_D_ESCAPE || current_state == SSTRING_S_ESCAPE) && defined(hex) ==> ch == 'x' && ((len(hex) == 2 && isHexC(hex[0]) && isHexC(hex[1])) ? arg1 == 16 * hexVal(hex[0]) + hexVal(hex[1]) : (arg1 == 'x' && s.r.pos >= 1 && sat(s.r.data, s.r.pos - 1) == 'x')) [C16]
+
+// all tokens: every call of getNextToken consumes input or ends the loop
+//@ func (*Lexer).getTokens [C08]
+//@   requires lexOk(s)
+//@   modifies *
+//@   ensures result.1 == nil ==> len(result.0) >= 1
+//@   loop 1 invariant lexOk(s) && s.r.data == old(s.r.data) && s.r == old(s.r)
+//@   loop 1 decreases len(s.r.data) - s.r.pos
